@@ -20,6 +20,7 @@ ASSUMPTIONS = [
     "u64 Display = decimal digits without padding (Base.Bytes.dec)",
     "Expires is emitted but is outside the statement (DESIGN section 7): the reference parser ignores it",
 ]
+LEVEL = "proof"
 EXHAUSTIVE = {"quick": False, "thorough": False}
 
 TCHARS = "!#$%&'*+-.^_`|~0123456789abcdefghijklmnopqrstuvwxyzABCDEFGHIJKLMNOPQRSTUVWXYZ"
